@@ -565,6 +565,7 @@ type SpecSet struct {
 	FuncOrder []string
 	Axioms    []*Axiom
 	Invariants map[string][]Clause // package path -> state invariants of the package's listener / parser state
+	TypeInvs   map[string][]Clause // "pkgpath.Type" -> invariants of an external data type (`self` is the struct value); trusted
 }
 
 func newSpecSet() *SpecSet {
@@ -572,7 +573,7 @@ func newSpecSet() *SpecSet {
 }
 
 var clauseKW = map[string]bool{"func": true, "method": true, "closure": true, "requires": true, "ensures": true, "modifies": true,
-	"decreases": true, "loop": true, "trusted": true, "pure": true, "noinline": true, "spec": true, "axiom": true, "lemma": true, "package": true, "assert": true, "invariant": true, "establishes": true, "inline": true, "cover": true}
+	"decreases": true, "loop": true, "trusted": true, "pure": true, "noinline": true, "spec": true, "axiom": true, "lemma": true, "package": true, "assert": true, "invariant": true, "establishes": true, "inline": true, "cover": true, "typeinv": true}
 
 // parseContractLines parses the "//@" lines of one file. pkgPath is the Go package whose scope resolves type names.
 func (ss *SpecSet) parseContractLines(lines []string, pkgPath, file string) error {
@@ -645,6 +646,21 @@ func (ss *SpecSet) parseContractLines(lines []string, pkgPath, file string) erro
 			}
 			ss.Funcs[f.Name] = f
 			ss.FuncOrder = append(ss.FuncOrder, f.Name)
+			cur = nil
+		case "typeinv":
+			i := strings.Index(rest, ":")
+			if i < 0 {
+				return fmt.Errorf("%s: bad clause %q (typeinv pkg.Type: expr)", file, st)
+			}
+			c, err := mk(strings.TrimSpace(rest[i+1:]))
+			if err != nil {
+				return err
+			}
+			if ss.TypeInvs == nil {
+				ss.TypeInvs = map[string][]Clause{}
+			}
+			k := strings.TrimSpace(rest[:i])
+			ss.TypeInvs[k] = append(ss.TypeInvs[k], c)
 			cur = nil
 		case "invariant":
 			c, err := mk(rest)
